@@ -115,6 +115,10 @@ func (db *DB) Select(query interface{}, args ...interface{}) (tx *DB) {
 	switch v := query.(type) {
 	case []string:
 		tx.Statement.Selects = v
+		if len(args) > 0 {
+			// append to a copy, not into the spare capacity of the caller's slice
+			tx.Statement.Selects = append(make([]string, 0, len(v)+len(args)), v...)
+		}
 
 		for _, arg := range args {
 			switch arg := arg.(type) {
